@@ -103,13 +103,42 @@ def step (s : St) (line : String) : St × String :=
     | none => (s, "bad-op")
     | some script =>
       let before := s.a.n.store
-      let (a', ws, calls, out) := if o.verb = "subh" then headersIter s.a script else dataIter s.a script
+      let isD := o.verb = "subd"
+      let (a2, ws2, calls, out) := if isD then dataIter s.a script else headersIter s.a script
       let canceled : Bool := match calls.getLast? with | some c => decide (c.ans = .canceled) | none => false
       let outS := match out with
         | .skipped => "skipped" | .fetchErr => "fetchErr" | .done => "done"
         | .incomplete => if canceled then "done" else "incomplete"
       let cs := if calls.isEmpty then "-" else String.intercalate ";" (calls.map showCall)
-      ({ s with a := a', before := before, ws := ws }, s!"{o.verb} out={outS} calls={cs} {showState a'} w={Drv.Prod.showWs ws}")
+      if o.str "during" = "" then
+        ({ s with a := a2, before := before, ws := ws2 }, s!"{o.verb} out={outS} calls={cs} {showState a2} w={Drv.Prod.showWs ws2}")
+      else
+        -- a block is committed while the body runs: at its first signer call (data: once the pending list has been read)
+        -- or at its first Submit call; if that point is not reached, right after it
+        let txs := (parseHexList (((o.str "during").splitOn ":").getD 1 "-")).getD []
+        let ts := s.ts + 1000000000
+        let atSubmit := o.str "at" = "submit"
+        let fired : Bool :=
+          if atSubmit then !calls.isEmpty
+          else isD && decide (s.a.n.store.height ≠ s.a.n.dataWm) && decide (s.a.n.dataWm ≤ s.a.n.store.height) &&
+               (pendingBlocks s.a.n.store s.a.n.dataWm).isSome
+        let cls (out : Producer.Outcome) : String := match out with
+          | .refused => "refused"
+          | .ok | .noBatch | .seqErr => "nil"
+          | _ => "err"
+        if fired then
+          let p := Producer.publish s.cfg s.a.n (.batch txs ts []) .ok
+          let a' := mergeDuring a2 p.1 ws2
+          let ws := p.2.1 ++ ws2
+          let pt := if atSubmit then "submit" else "sign"
+          ({ s with a := a', ts := ts, before := before, ws := ws },
+            s!"{o.verb} out={outS} calls={cs} {showState a'} w={Drv.Prod.showWs ws} during={cls p.2.2}@{pt}")
+        else
+          let p := Producer.publish s.cfg a2.n (.batch txs ts []) .ok
+          let a' := { a2 with n := p.1 }
+          let ws := ws2 ++ p.2.1
+          ({ s with a := a', ts := ts, before := before, ws := ws },
+            s!"{o.verb} out={outS} calls={cs} {showState a'} w={Drv.Prod.showWs ws} during={cls p.2.2}@after")
   | "subhreal" | "subdreal" =>
     let toks := if o.str "script" = "" || o.str "script" = "-" then [] else (o.str "script").splitOn "|"
     match toks.mapM parseAns with
